@@ -47,6 +47,7 @@ type c09Run struct {
 	written strings.Builder
 	script  []string
 	nread   int
+	impure  []string // Marshal calls that modified their argument
 }
 
 func newC09Run(p *Prog) *c09Run {
@@ -165,9 +166,13 @@ func (r *c09Run) marshal(t types.Type, obj int) (text string, isErr bool, why st
 	}
 	r.written.Reset()
 	wid := r.st.alloc(types.Typ[types.Int], OpaqueV{"writer"})
+	before := deepRender(r.st, Ptr{Obj: obj}, 0)
 	ret, why := r.call(fn, IfaceV{T: types.NewPointer(types.Typ[types.Int]), V: Ptr{Obj: wid}}, IfaceV{T: types.NewPointer(t), V: Ptr{Obj: obj}})
 	if why != "" {
 		return "", false, why
+	}
+	if after := deepRender(r.st, Ptr{Obj: obj}, 0); after != before {
+		r.impure = append(r.impure, fmt.Sprintf("Marshal changes the value it is given: %s became %s", clip(before, 300), clip(after, 300)))
 	}
 	_, isNil := ret.(nilV)
 	return r.written.String(), !isNil, ""
@@ -678,6 +683,26 @@ func checkC09(p *Prog, rp *Report) {
 				}
 			}
 		}
+		// a hand-built value whose embedded Paragraph is the zero value (no map yet) marshals, twice the same
+		if undecided == "" {
+			wp := mkProbeType("WithParagraph", append([]probeField{{"Paragraph", paraT, "", true}}, fields[:8]...))
+			r3 := newC09Run(p)
+			obj := r3.st.alloc(wp, mkStruct(wp, map[string]Val{"Name": "hand-built", "Needed": "n", "Count": int64(3)}))
+			t1, isErr, why := r3.marshal(wp, obj)
+			if !note(why) {
+				if isErr {
+					problems = append(problems, "a hand-built value with a zero embedded Paragraph cannot be marshalled")
+				} else {
+					r3.st.Heap[obj].V.(*StructV).F[fieldIndex(structOf(wp), "Name")] = "edited"
+					t2, _, why := r3.marshal(wp, obj)
+					if !note(why) && (!strings.Contains(t1, "Name: hand-built") || !strings.Contains(t2, "Name: edited") || strings.Contains(t2, "hand-built")) {
+						problems = append(problems, fmt.Sprintf("marshalling a value, editing a field and marshalling again gives %q then %q: the second text must carry the edited value only", t1, t2))
+					}
+				}
+			}
+			problems = append(problems, r3.impure...)
+		}
+		problems = append(problems, r.impure...)
 		// the embedded Paragraph need not be the first member
 		if undecided == "" {
 			mid := mkProbeType("ParagraphInTheMiddle", []probeField{{"Package", str, "", false}, {"Section", str, "", false}, {"Paragraph", paraT, "", true}, {"Priority", str, "", false}})
